@@ -39,6 +39,7 @@ mod ift;
 mod layout;
 mod misc;
 mod ps;
+mod trav;
 mod varc;
 mod vars;
 
@@ -75,6 +76,7 @@ pub const GROUPS: &[(&str, fn(&mut Ctx))] = &[
     ("glyf.bytecode", glyfx::run_bytecode),
     ("vars", vars::run),
     ("ift", ift::run),
+    ("traverse.debug", trav::run),
 ];
 
 /// plumbing self-test groups (only with `C01_HAND_SELFTEST=1`): a call that never returns and a call
